@@ -347,7 +347,13 @@ def oracle_c04(case, out):
             return "c%d wrote bytes that are not well-formed HTTP/1.1: %s\n  stream: %r" % (c, err, data[:300])
         # the ONLY request this connection ever received is a HEAD request (valid or not): whatever the server answered —
         # the application's response or the library's own error response — answers a HEAD request and carries no body
-        if rx.startswith(b"HEAD ") and rx.count(b"HTTP/1.") == 1 and b"\r\n\r\n" in rx and rx.index(b"\r\n\r\n") + 4 == len(rx):
+        # (only where every response is the library's or its handler's immediate answer: a response the application
+        # issues later, on its own, is judged by C14 and its known finding)
+        o = case.meta.get("opts", {})
+        app_driven = o.get("policy") not in ("sync", "router") or any(
+            l.startswith("app-send c%d " % c) or l.startswith("app-chunk c%d " % c) or l.startswith("app-last c%d " % c) for l in case.lines)
+        if not app_driven and rx.startswith(b"HEAD ") and rx.count(b"HTTP/1.") == 1 and b"\r\n\r\n" in rx and \
+                rx.index(b"\r\n\r\n") + 4 == len(rx):
             for r in res:
                 if r["status"] >= 200 and r["body"]:
                     return ("c%d: the response %d to a HEAD request (the only request on the connection) carries the body %r: "
